@@ -327,10 +327,10 @@ Fixpoint create_space_loop (fuel : nat) (cfg : config) (est : Z -> Z) (inc_freq 
   end.
 
 (** maybe_add: result status, state, victims *)
-Inductive admit_result :=
+Inductive admission_result :=
 | AdStatus (stt : status) | AdPanic (site : Z) | AdInadmissible (why : Z).
 
-Definition admit (cfg : config) (orc : worker_oracle) (k id h w : Z) (s : state) : admit_result * state * list sampled :=
+Definition admission (cfg : config) (orc : worker_oracle) (k id h w : Z) (s : state) : admission_result * state * list sampled :=
   if c_max cfg <? w then (AdStatus (Rejected TooHeavy), s, []) else
   let space := c_max cfg - used s in
   if w <=? space then
@@ -688,7 +688,7 @@ Definition worker_step (cfg : config) (orc : worker_oracle) (s : state) : state 
       | CPut k v id h w =>
           (* the worker re-checks presence (fix for two puts of one key pending together) *)
           if amem k (store s0) then (set_ack a (Rejected KeyAlreadyExists) s0, [5; 5]) else
-          match admit cfg orc k id h w s0 with
+          match admission cfg orc k id h w s0 with
           | (AdStatus Accepted, s1, vs) => (set_ack a Accepted (store_insert k v id None s1), 5 :: 1 :: map sk_id vs)
           | (AdStatus x, s1, vs) => (set_ack a x (upd_st add_keys_rejected 1 s1), 5 :: status_code x :: map sk_id vs)
           | (AdPanic site, s1, _) => (set_worker s1 Dead, [4; site])
@@ -696,7 +696,7 @@ Definition worker_step (cfg : config) (orc : worker_oracle) (s : state) : state 
           end
       | CPutTTL k v id h w ttl =>
           if amem k (store s0) then (set_ack a (Rejected KeyAlreadyExists) s0, [5; 5]) else
-          match admit cfg orc k id h w s0 with
+          match admission cfg orc k id h w s0 with
           | (AdStatus Accepted, s1, vs) =>
               match calc_expiry (now s1) ttl with
               | None => (set_worker s1 Dead, [4; site_expiry_overflow])
